@@ -122,16 +122,82 @@ def cartIdx : List Nat → List (List Nat) → List Nat
   | d :: ds, [] => (List.range d).flatMap fun i => (cartIdx ds []).map fun p => i * prod ds + p
   | _ :: ds, a :: as => a.flatMap fun i => (cartIdx ds as).map fun p => i * prod ds + p
 
+/-- an entry of a mixed index tuple that is not the integer array: a slice or a plain integer -/
+inductive BItem
+  | sl (s : PySlice)
+  | int (i : Int)
+deriving DecidableEq, Repr, Inhabited
+
+def BItem.isInt : BItem → Bool
+  | .int _ => true
+  | .sl _ => false
+
 inductive SliceSpec
   | basic (s : PySlice)            -- `a[start:stop:step]`
   | tuple (ss : List PySlice)      -- `a[s0, s1, …]`
   | intArr (is : List Int)         -- `a[np.array([...])]` (1-D integer array, axis 0)
+  /-- `a[pre…, np.array(arr), post…]` (slices and integers around ONE 1-D integer array at any axis), or, with
+      `arr = none`, a tuple of slices and integers `a[pre…, post…]` -/
+  | mixed (pre : List BItem) (arr : Option (List Int)) (post : List BItem)
 deriving DecidableEq, Repr, Inhabited
 
-/-- basic indexing returns a view, advanced (integer-array) indexing returns a copy -/
+/-- basic indexing returns a view, advanced indexing (any integer array in the index) returns a copy -/
 def SliceSpec.isView : SliceSpec → Bool
   | .intArr _ => false
+  | .mixed _ (some _) _ => false
   | _ => true
+
+/-- one integer index along an axis of length `n` -/
+def intIndex (n : Nat) (i : Int) : Except Err Nat :=
+  let j := if i < 0 then i + (n : Int) else i
+  if j < 0 ∨ j ≥ (n : Int) then .error .IndexError else .ok j.toNat
+
+/-- per-axis index lists of slices and integers, parsed (and checked) in order -/
+def parseItems : List Nat → List BItem → Except Err (List (List Nat))
+  | d :: ds, .sl s :: is =>
+    match s.axis d with
+    | .error e => .error e
+    | .ok a => match parseItems ds is with
+      | .error e => .error e
+      | .ok r => .ok (a :: r)
+  | d :: ds, .int i :: is =>
+    match intIndex d i with
+    | .error e => .error e
+    | .ok j => match parseItems ds is with
+      | .error e => .error e
+      | .ok r => .ok ([j] :: r)
+  | _, _ => .ok []
+
+/-- lengths of the axes that survive (slices keep their axis, integers remove it) -/
+def keptLens : List BItem → List (List Nat) → List Nat
+  | .sl _ :: is, a :: as => a.length :: keptLens is as
+  | .int _ :: is, _ :: as => keptLens is as
+  | _, _ => []
+
+/-- integers count as advanced indices next to an array: are all advanced indices adjacent
+    (`pre` = slices then integers, `post` = integers then slices)? -/
+def adjacent (pre post : List BItem) : Bool :=
+  (pre.dropWhile (fun b => !b.isInt)).all (·.isInt) && (post.dropWhile (·.isInt)).all (fun b => !b.isInt)
+
+/-- parse everything of `a[pre…, array of length k, post…]` except the array's entries:
+    `(axes of pre, length of the array's axis, axes of post, result shape)`.
+    numpy: adjacent advanced indices leave the array dimension in place, otherwise it comes first. -/
+def mixedParse (shape : List Nat) (pre : List BItem) (k : Nat) (post : List BItem) :
+    Except Err (List (List Nat) × Nat × List (List Nat) × List Nat) :=
+  if pre.length + 1 + post.length > shape.length then .error .IndexError     -- too many indices
+  else match parseItems shape pre with
+    | .error e => .error e
+    | .ok preAx =>
+      match shape.drop pre.length with
+      | [] => .error .IndexError
+      | d :: rest =>
+        match parseItems rest post with
+        | .error e => .error e
+        | .ok postAx =>
+          let tail := rest.drop post.length
+          .ok (preAx, d, postAx,
+            if adjacent pre post then keptLens pre preAx ++ [k] ++ keptLens post postAx ++ tail
+            else k :: (keptLens pre preAx ++ keptLens post postAx ++ tail))
 
 def selTuple (shape : List Nat) (ss : List PySlice) : Except Err (List Nat × List Nat) :=
   if ss.length > shape.length then .error .IndexError      -- too many indices for array
@@ -150,6 +216,29 @@ def selIdx (shape : List Nat) : SliceSpec → Except Err (List Nat × List Nat)
       match intAxis d is with
       | .error e => .error e
       | .ok a => .ok (cartIdx (d :: ds) [a], a.length :: ds)
+  | .mixed pre none post =>
+    if (pre ++ post).length > shape.length then .error .IndexError
+    else match parseItems shape (pre ++ post) with
+      | .error e => .error e
+      | .ok ax => .ok (cartIdx shape ax, keptLens (pre ++ post) ax ++ shape.drop (pre ++ post).length)
+  | .mixed pre (some is) post =>
+    match mixedParse shape pre is.length post with
+    | .error e => .error e
+    | .ok (preAx, d, postAx, rshape) =>
+      match intAxis d is with
+      | .error e => .error e
+      | .ok a =>
+        .ok (if adjacent pre post then cartIdx shape (preAx ++ [a] ++ postAx)
+             else a.flatMap fun j => cartIdx shape (preAx ++ [[j]] ++ postAx), rshape)
+
+/-- for an index containing an integer array: the result shape, known before the array's entries are bounds-checked -/
+def advShape (shape : List Nat) : SliceSpec → Option (Except Err (List Nat))
+  | .intArr is => some (.ok (is.length :: shape.drop 1))
+  | .mixed pre (some is) post =>
+    some (match mixedParse shape pre is.length post with
+      | .error e => .error e
+      | .ok (_, _, _, rshape) => .ok rshape)
+  | _ => Option.none
 
 /-! ## broadcasting -/
 
@@ -183,6 +272,7 @@ def setBcast (t s : List Nat) : Option (List Nat) :=
 inductive PVal
   | none
   | sc (cplx : Bool) (x : GI)                           -- Python int / complex (immutable)
+  | npsc (cplx : Bool) (x : GI)                         -- numpy scalar: what indexing EVERY axis with an integer returns
   | arr (r : Nat)                                       -- a whole heap array
   | view (r : Nat) (idx : List Nat) (shape : List Nat)  -- numpy view into heap array `r`
 deriving DecidableEq, Repr, Inhabited
@@ -207,6 +297,7 @@ inductive Src
 def PVal.src (h : Heap) : PVal → Option Src
   | .none => Option.none
   | .sc c x => some (.sc c x)
+  | .npsc c x => some (.sc c x)
   | .arr r => some (.arr (h.objs r).cplx (h.objs r).shape (h.objs r).data)
   | .view r idx shp => some (.arr (h.objs r).cplx shp (h.read r idx))
 
@@ -215,13 +306,17 @@ def dropIm (x : GI) : GI := ⟨x.re, 0⟩
 /-- `v[sp]` -/
 def getItem (h : Heap) (v : PVal) (sp : SliceSpec) : Except Err (Heap × PVal) :=
   match v.asView h with
-  | Option.none => .error .TypeError      -- 'NoneType' / 'int' object is not subscriptable
+  | Option.none =>
+    match v with
+    | .npsc _ _ => .error .IndexError     -- invalid index to scalar variable
+    | _ => .error .TypeError              -- 'NoneType' / 'int' object is not subscriptable
   | some (r, idx, shp) =>
     match selIdx shp sp with
     | .error e => .error e
     | .ok (pos, shp') =>
       let idx' := pos.map fun p => idx.getD p 0
-      if sp.isView then .ok (h, .view r idx' shp')
+      if shp' = [] then .ok (h, .npsc (h.objs r).cplx ((h.read r idx').getD 0 0))   -- 0-d result: a numpy scalar (copy)
+      else if sp.isView then .ok (h, .view r idx' shp')
       else
         let (h', r') := h.alloc ⟨(h.objs r).cplx, shp', h.read r idx'⟩
         .ok (h', .arr r')
@@ -234,7 +329,8 @@ def prepVal (h : Heap) (tc : Bool) (shp : List Nat) (v : PVal) : Except Err (Lis
     if c && !tc then .error .TypeError               -- int(complex)
     else .ok (List.replicate (prod shp) x)
   | some (.arr c vshape vals) =>
-    match setBcast shp vshape with
+    if shp = [] then .error .ValueError              -- setting an array element with a sequence
+    else match setBcast shp vshape with
     | Option.none => .error .ValueError              -- could not broadcast input array
     | some m =>
       let vs := m.map fun p => vals.getD p 0
@@ -243,9 +339,10 @@ def prepVal (h : Heap) (tc : Bool) (shp : List Nat) (v : PVal) : Except Err (Lis
 /-- positions and values of `target[sp] = v` on an array of shape `shp`. numpy converts and broadcasts the value BEFORE it
     bounds-checks an integer index array, but parses a basic index first. -/
 def prepSet (h : Heap) (tc : Bool) (shp : List Nat) (sp : SliceSpec) (v : PVal) : Except Err (List Nat × List GI) :=
-  match sp with
-  | .intArr is =>
-    match prepVal h tc (is.length :: shp.drop 1) v with
+  match advShape shp sp with
+  | some (.error e) => .error e
+  | some (.ok rshape) =>
+    match prepVal h tc rshape v with
     | .error .Unsupported =>                          -- the NaN conversion succeeds; the bounds check still comes
       match selIdx shp sp with
       | .error e => .error e
@@ -255,7 +352,7 @@ def prepSet (h : Heap) (tc : Bool) (shp : List Nat) (sp : SliceSpec) (v : PVal) 
       match selIdx shp sp with
       | .error e => .error e
       | .ok (pos, _) => .ok (pos, vals)
-  | _ =>
+  | Option.none =>
     match selIdx shp sp with
     | .error e => .error e
     | .ok (pos, shp') =>
@@ -290,6 +387,12 @@ def iadd (h : Heap) (tmp ds : PVal) : Except Err (Heap × IaddRes) :=
       | .arr c' shp vals =>                               -- scalar + ndarray → new ndarray
         let (h', r') := h.alloc ⟨c || c', shp, vals.map fun v => x + v⟩
         .ok (h', .newVal (.arr r'))
+    | .npsc c x =>
+      match d with
+      | .sc c' y => .ok (h, .newVal (.npsc (c || c') (x + y)))
+      | .arr c' shp vals =>
+        let (h', r') := h.alloc ⟨c || c', shp, vals.map fun v => x + v⟩
+        .ok (h', .newVal (.arr r'))
     | t =>
       match t.asView h with
       | Option.none => .error .TypeError
@@ -312,6 +415,7 @@ def mulZero (h : Heap) (v : PVal) : Except Err (Heap × PVal) :=
   match v with
   | .none => .error .TypeError
   | .sc c _ => .ok (h, .sc c 0)
+  | .npsc c _ => .ok (h, .npsc c 0)
   | t =>
     match t.asView h with
     | Option.none => .error .TypeError
@@ -475,6 +579,7 @@ def resetPlain (w : World) (i : Nat) (ka : Option Bool) : World × Option Err :=
       | Option.none =>                                      -- TypeError → self.sensitivity *= 0
         match cur with
         | .sc c _ => (w.setSens i (.sc c 0), Option.none)
+        | .npsc c _ => (w.setSens i (.npsc c 0), Option.none)
         | _ => (w.setSens i .none, Option.none)
     else (w.setSens i .none, Option.none)
 
